@@ -149,6 +149,11 @@ fn const_json<'tcx>(tcx: TyCtxt<'tcx>, typing_env: TypingEnv<'tcx>, c: &ConstOpe
             } else if let ty::Adt(def, _) = ty.kind() {
                 v.push(("adt", J::s(&canon_path(tcx, def.did()))));
             }
+            if let Const::Ty(_, ct) = c.const_ {
+                if let ty::ConstKind::Param(pc) = ct.kind() {
+                    v.push(("param", J::s(&pc.name.to_string())));
+                }
+            }
             // constants that name an item (e.g. `trojan::CR_LF`, `kdf::SALT_LENGTH_KEY`)
             if let Const::Unevaluated(uv, _) = c.const_ {
                 v.push(("item", J::s(&canon_path(tcx, uv.def))));
